@@ -164,8 +164,10 @@ def gen_elem(rng, cfg, fixed, max_count, left_bytes, same_counts=None, vmax=250)
         if k == "v":
             sz = ty_size(ty)
             mx = min(max_count, (left_bytes - payload) // sz)
-            c = same_counts[len(vcounts)] if same_counts is not None and len(same_counts) > len(vcounts) else rng.randint(0, max(0, mx))
-            c = min(c, max(0, mx))
+            if same_counts is not None and len(same_counts) > len(vcounts):
+                c = same_counts[len(vcounts)]  # the caller checks the budget
+            else:
+                c = min(rng.randint(0, max(0, mx)), max(0, mx))
             vcounts[i] = c
             payload += c * sz
     for i, (k, ty, al) in enumerate(cfg.params):
@@ -188,7 +190,7 @@ def fixed_text(fixed):
     return ",".join(map(str, fixed)) if fixed else "-"
 
 
-def gen_history(rng, cfg, length, weights=None, equal_sizes=False, allocs=(1,), multi=False, max_count=9):
+def gen_history(rng, cfg, length, weights=None, equal_sizes=False, allocs=(1,), multi=False, max_count=9, faults=False):
     """one operation sequence on up to three vectors"""
     w = {"emplace": 10, "pop": 2, "erase": 3, "eraser": 2, "clear": 1, "reserve": 2, "dump": 0,
          "copy": 0, "move": 0, "copyassign": 0, "moveassign": 0, "swap": 0, "destroy": 0, "new": 0}
@@ -214,104 +216,159 @@ def gen_history(rng, cfg, length, weights=None, equal_sizes=False, allocs=(1,), 
 
     new_vec(0)
     ops = [o for o in w if w[o] > 0]
+    nslots = 6 if faults else 3
+    burned = set()      # names whose construction may have thrown: never used again
     for _ in range(length):
-        op = rng.choices(ops, [w[o] for o in ops])[0]
-        live = [k for k in specs if not specs[k].moved]
-        if op == "new":
-            free = [k for k in range(3) if k not in specs]
-            if free:
-                new_vec(free[0])
-            continue
-        if not live:
-            continue
-        k = rng.choice(live)
-        s = specs[k]
-        if op == "emplace":
-            if len(s.elems) >= s.cap:
-                # grow instead, as a user would
-                n = s.cap + rng.choice([1, 2, 3])
-                b = s.budget + rng.choice([0, 16, 40])
-                lines.append("reserve v%d %d %d" % (k, n, b))
-                s.cap, s.budget = n, b
-            if equal_sizes and same is None:
-                _, _, same = gen_elem(rng, cfg, s.fixed, 4, 10 ** 9)
-            text, pay, _ = gen_elem(rng, cfg, s.fixed, max_count, s.budget - s.payload(), same if equal_sizes else None)
-            if equal_sizes and pay + s.payload() > s.budget:
-                continue
-            lines.append("emplace v%d %s" % (k, text))
-            s.elems.append((text, pay))
-        elif op == "pop":
-            if s.elems:
-                lines.append("pop v%d" % k)
-                s.elems.pop()
-        elif op == "erase":
-            if s.elems:
-                i = rng.randrange(len(s.elems))
-                lines.append("erase v%d %d" % (k, i))
-                del s.elems[i]
-        elif op == "eraser":
-            i = rng.randint(0, len(s.elems))
-            j = rng.randint(i, len(s.elems))
-            lines.append("eraser v%d %d %d" % (k, i, j))
-            del s.elems[i:j]
-        elif op == "clear":
-            if multi and rng.random() < 0.3:
-                k = rng.choice(list(specs))  # moved-from vectors can be cleared too
-                s = specs[k]
-            lines.append("clear v%d" % k)
-            s.elems = []
-        elif op == "reserve":
-            n = rng.choice([0, s.cap, s.cap + 1, s.cap + 3, max(0, s.cap - 1)])
-            b = s.budget + rng.choice([0, 0, 16, 64]) if n > s.cap else rng.choice([0, s.budget, s.budget + 8])
-            b = max(b, s.payload()) if n > s.cap else b
-            lines.append("reserve v%d %d %d" % (k, n, b))
-            if n > s.cap:
-                s.cap, s.budget = n, b
-        elif op in ("copy", "move"):
-            free = [d for d in range(3) if d not in specs]
-            if not free:
-                continue
-            d = free[0]
-            lines.append("%s v%d v%d" % (op, k, d))
-            specs[d] = Spec(s.cap, s.budget, list(s.fixed))
-            specs[d].elems = list(s.elems)
-            specs[d].alloc = s.alloc if op == "move" else (s.alloc + 1 if s.alloc >= 100 else s.alloc)
-            if op == "move":
-                s.elems = []
-                s.moved = True
-        elif op in ("copyassign", "moveassign", "swap"):
-            others = [d for d in specs]
-            d = rng.choice(others)
-            t = specs[d]
-            pocca, pocma, pocs, ae = [c == "1" for c in cfg.alloc]
-            if op == "swap":
-                # allocator-aware swap requires equal allocators unless they propagate (standard precondition)
-                if not (pocs or ae or s.alloc == t.alloc):
-                    continue
-                lines.append("swap v%d v%d" % (k, d))
-                specs[k], specs[d] = t, s
-                if not pocs:
-                    s.alloc, t.alloc = t.alloc, s.alloc
-            elif op == "copyassign":
-                lines.append("copyassign v%d v%d" % (k, d))
-                if d != k and pocca:
-                    t.alloc = s.alloc
-                if d != k:
-                    t.cap, t.budget, t.fixed, t.elems, t.moved = s.cap, s.budget, list(s.fixed), list(s.elems), False
+        inject = False
+        try:
+            op = rng.choices(ops, [w[o] for o in ops])[0]
+            live = [k for k in specs if not specs[k].moved and not getattr(specs[k], "uncertain", False)]
+            inject = faults and op in ("new", "reserve", "copy", "copyassign", "moveassign") and rng.random() < 0.6
+            if inject and live:
+                # fail the 1st or 2nd allocation of this operation; the outcome is treated as unknown afterwards
+                before = len(lines)
+                pre_specs = set(specs)
+                lines.append("failat %d" % rng.choice([0, 0, 1]))
+                marker = len(lines)
             else:
-                lines.append("moveassign v%d v%d" % (k, d))
-                if d != k and pocma:
-                    t.alloc = s.alloc
-                if d != k:
-                    t.cap, t.budget, t.fixed, t.elems, t.moved = s.cap, s.budget, list(s.fixed), list(s.elems), False
+                inject = False
+            if op == "new":
+                free = [k for k in range(nslots) if k not in specs and k not in burned]
+                if free:
+                    new_vec(free[0])
+                continue
+            if not live:
+                continue
+            k = rng.choice(live)
+            s = specs[k]
+            if op == "emplace":
+                if len(s.elems) >= s.cap:
+                    # grow instead, as a user would
+                    n = s.cap + rng.choice([1, 2, 3])
+                    b = s.budget + rng.choice([0, 16, 40])
+                    lines.append("reserve v%d %d %d" % (k, n, b))
+                    s.cap, s.budget = n, b
+                if equal_sizes and same is None:
+                    _, _, same = gen_elem(rng, cfg, s.fixed, 4, 10 ** 9)
+                text, pay, _ = gen_elem(rng, cfg, s.fixed, max_count, s.budget - s.payload(), same if equal_sizes else None)
+                if equal_sizes and pay + s.payload() > s.budget:
+                    continue
+                lines.append("emplace v%d %s" % (k, text))
+                s.elems.append((text, pay))
+            elif op == "pop":
+                if s.elems:
+                    lines.append("pop v%d" % k)
+                    s.elems.pop()
+            elif op == "erase":
+                if s.elems:
+                    i = rng.randrange(len(s.elems))
+                    lines.append("erase v%d %d" % (k, i))
+                    del s.elems[i]
+            elif op == "eraser":
+                i = rng.randint(0, len(s.elems))
+                j = rng.randint(i, len(s.elems))
+                lines.append("eraser v%d %d %d" % (k, i, j))
+                del s.elems[i:j]
+            elif op == "clear":
+                if multi and rng.random() < 0.3:
+                    k = rng.choice(list(specs))  # moved-from vectors can be cleared too
+                    s = specs[k]
+                lines.append("clear v%d" % k)
+                s.elems = []
+            elif op == "reserve":
+                n = rng.choice([0, s.cap, s.cap + 1, s.cap + 3, max(0, s.cap - 1)])
+                b = s.budget + rng.choice([0, 0, 16, 64]) if n > s.cap else rng.choice([0, s.budget, s.budget + 8])
+                b = max(b, s.payload()) if n > s.cap else b
+                lines.append("reserve v%d %d %d" % (k, n, b))
+                if n > s.cap and not inject:
+                    s.cap, s.budget = n, b
+            elif op in ("copy", "move"):
+                free = [d for d in range(nslots) if d not in specs and d not in burned]
+                if not free:
+                    continue
+                d = free[0]
+                lines.append("%s v%d v%d" % (op, k, d))
+                specs[d] = Spec(s.cap, s.budget, list(s.fixed))
+                specs[d].elems = list(s.elems)
+                specs[d].alloc = s.alloc if op == "move" else (s.alloc + 1 if s.alloc >= 100 else s.alloc)
+                if op == "move":
                     s.elems = []
-                    s.moved = True  # conservatively: do not keep using the source
-        elif op == "destroy":
-            if len(specs) > 1:
-                lines.append("destroy v%d" % k)
-                del specs[k]
-        elif op == "dump":
-            lines.append("dump v%d" % k)
+                    s.moved = True
+            elif op in ("copyassign", "moveassign", "swap"):
+                others = [d for d in specs]
+                d = rng.choice(others)
+                t = specs[d]
+                pocca, pocma, pocs, ae = [c == "1" for c in cfg.alloc]
+                if op == "swap":
+                    # allocator-aware swap requires equal allocators unless they propagate (standard precondition)
+                    if not (pocs or ae or s.alloc == t.alloc):
+                        continue
+                    lines.append("swap v%d v%d" % (k, d))
+                    specs[k], specs[d] = t, s
+                    if not pocs:
+                        s.alloc, t.alloc = t.alloc, s.alloc
+                elif op == "copyassign":
+                    lines.append("copyassign v%d v%d" % (k, d))
+                    if d != k and pocca:
+                        t.alloc = s.alloc
+                    if d != k:
+                        t.cap, t.budget, t.fixed, t.elems, t.moved = s.cap, s.budget, list(s.fixed), list(s.elems), False
+                else:
+                    lines.append("moveassign v%d v%d" % (k, d))
+                    if d != k and pocma:
+                        t.alloc = s.alloc
+                    if d != k:
+                        t.cap, t.budget, t.fixed, t.elems, t.moved = s.cap, s.budget, list(s.fixed), list(s.elems), False
+                        s.elems = []
+                        s.moved = True  # conservatively: do not keep using the source
+            elif op == "destroy":
+                if len(specs) > 1:
+                    lines.append("destroy v%d" % k)
+                    del specs[k]
+            elif op == "dump":
+                lines.append("dump v%d" % k)
+        finally:
+            if inject:
+                if len(lines) == marker:
+                    lines.pop()  # nothing was emitted
+                else:
+                    emitted = lines[marker:]
+                    lines.append("failoff")
+                    for l in emitted:
+                        t = l.split()
+                        if t[0] in ("new", "copy"):
+                            name = int(t[1][1:]) if t[0] == "new" else int(t[2][1:])
+                            specs.pop(name, None)
+                            burned.add(name)
+                        elif t[0] in ("copyassign", "moveassign"):
+                            for nm in (int(t[1][1:]), int(t[2][1:])):
+                                if nm in specs and t[1] != t[2]:
+                                    specs[nm].uncertain = True
+                                    specs[nm].elems = []
+                        elif t[0] == "reserve":
+                            pass
+                    # a reserve emitted inside an emplace step: drop the emplace bookkeeping is already conservative
+            if faults:
+                # uncertain vectors may still be cleared, dumped, destroyed or assigned to
+                for nm in [x for x in specs if getattr(specs[x], "uncertain", False)]:
+                    r = rng.random()
+                    if r < 0.15:
+                        lines.append("clear v%d" % nm)
+                    elif r < 0.25:
+                        lines.append("dump v%d" % nm)
+                    elif r < 0.35 and len(specs) > 1:
+                        lines.append("destroy v%d" % nm)
+                        del specs[nm]
+                    elif r < 0.5:
+                        srcs = [x for x in specs if x != nm and not specs[x].moved and not getattr(specs[x], "uncertain", False)]
+                        if srcs:
+                            s0 = rng.choice(srcs)
+                            lines.append("copyassign v%d v%d" % (s0, nm))
+                            t0 = specs[nm]
+                            ss = specs[s0]
+                            t0.cap, t0.budget, t0.fixed, t0.elems, t0.moved, t0.uncertain = ss.cap, ss.budget, list(ss.fixed), list(ss.elems), False, False
+                            if cfg.alloc[0] == "1":
+                                t0.alloc = ss.alloc
     lines.append("end")
     return lines
 
